@@ -1,6 +1,7 @@
 package jsonrpc2
 
 import (
+	"time"
 	"context"
 	"encoding/json"
 	"errors"
@@ -211,6 +212,13 @@ func VerifC14Closed() {
 func VerifC14Cancel() {
 	a, _, _, _ := verifPair()
 	ctx, cancel := context.WithCancel(context.Background())
+	deadline := verifapi.Param("deadline", 0) == 1
+	if deadline {
+		// the context ends by its deadline instead of an explicit cancel
+		cancel()
+		ctx, cancel = context.WithTimeout(context.Background(), time.Second)
+	}
+	defer cancel()
 	t1 := verifapi.Int64("token1")
 	t2 := verifapi.Int64("token2")
 	first := make(chan error, 1)
@@ -222,9 +230,13 @@ func VerifC14Cancel() {
 		}
 		first <- err
 	}()
-	go func() { cancel() }()
+	if deadline {
+		go func() { verifapi.FireTimers(1) }()
+	} else {
+		go func() { cancel() }()
+	}
 	err1 := <-first
-	verifapi.Assert(err1 == nil || err1 == context.Canceled, "c14.cancelled-call-returns-ctx-error")
+	verifapi.Assert(err1 == nil || err1 == ctx.Err(), "c14.cancelled-call-returns-ctx-error")
 	// a later call on the same connection still gets its own reply
 	var got2 int64
 	err2 := a.Call(context.Background(), &got2, "echo", t2)
